@@ -78,6 +78,22 @@ inductive Fn
   | yield | next | switchTo | maint | waitSaving | waitDefer | wake | done | other
   deriving Repr, DecidableEq, Inhabited
 
+/-- GHOST: what kernel thread k still owes `old k`, the fiber it last switched away from.
+    fiber_manager_do_maintenance runs right after every context switch, in this order:
+    read old.state; if SAVING write WAITING; destroy done_fiber; push to_schedule; deferred
+    publications.  Which of these applies is decided by the state word the first read returns
+    (READY ⇔ to_schedule was set by switch_to, DONE ⇔ done_fiber was set by fiber_join_routine,
+    WAITING ⇔ a deferred publication is pending, SAVING ⇔ the flip).  Each duty is performed
+    at most once per switch; a thread whose `old` is stale (the fiber has run again elsewhere
+    since) owes it nothing. -/
+inductive MSt
+  | idle        -- nothing owed
+  | read        -- just switched: old.state not read yet
+  | flip        -- read SAVING: must write WAITING
+  | push        -- read READY: must push to_schedule
+  | destroy     -- read DONE: must destroy done_fiber
+  deriving Repr, DecidableEq, Inhabited
+
 inductive Ev
   | create (k g : Nat)
   | spawn
@@ -104,6 +120,8 @@ structure St where
   /-- for maintenance fibers: the kernel thread they belong to -/
   maintOf : Nat → Nat
   spawned : Bool
+  /-- GHOST maintenance stage of kernel thread k (see `MSt`) -/
+  mst : Nat → MSt
 
 /-- run queue `q` belongs to kernel thread `q / 2` (`Q<k>a` ↦ 2k, `Q<k>b` ↦ 2k+1) -/
 def qowner (q : Nat) : Nat := q / 2
@@ -113,7 +131,8 @@ def init : St :=
   { fst := fun g => if g = 0 then RUNNING else READY,
     ctx := fun g => if g < 16 then .running g else .none,
     bag := fun _ => [], cur := fun k => k, old := fun k => k, tpc := fun _ => .run,
-    pub := fun _ => false, tracked := fun g => g = 0, maintOf := fun g => g, spawned := false }
+    pub := fun _ => false, tracked := fun g => g = 0, maintOf := fun g => g, spawned := false,
+    mst := fun _ => .idle }
 
 def inSomeBag (s : St) (g : Nat) (nq : Nat) : Bool :=
   (List.range nq).any (fun q => (s.bag q).contains g)
@@ -126,7 +145,22 @@ def heldBy (s : St) (g : Nat) : Bool :=
     | .held h => h = g | .requeue h => h = g | .checked h => h = g | .armed h => h = g | .stolen h => h = g
     | .run => false)
 
-def step (s : St) : Ev → Option St
+/-- kernel-thread ids are < 16 and run-queue ids < 32 (`heldBy` / `inSomeBag` scan exactly
+    these); an event outside this range is rejected, so the bound is CHECKED on every log -/
+def Ev.wf : Ev → Bool
+  | .create k _ => k < 16
+  | .spawn => true
+  | .tick => true
+  | .rqpush k q _ _ => k < 16 && q < NQ
+  | .rqpop k q _ => k < 16 && q < NQ
+  | .rqsteal k q _ => k < 16 && q < NQ
+  | .rState k _ _ _ => k < 16
+  | .wState k _ _ _ => k < 16
+  | .switch k _ => k < 16
+  | .destroy k _ => k < 16
+
+/-- the transition function proper (events in range) -/
+def core (s : St) : Ev → Option St
   | .spawn => some { s with spawned := true }
   | .tick => some s
   | .create k g =>
@@ -145,9 +179,9 @@ def step (s : St) : Ev → Option St
       if heldBy s g then none
       else if s.ctx g = .fresh ∧ s.fst g = READY then
         some { s with bag := upd s.bag q (g :: s.bag q) }
-      else if g = s.old k ∧ s.fst g = READY ∧ s.ctx g = .saved ∧ ¬ s.pub g then
-        -- maintenance re-queues the fiber that yielded (to_schedule)
-        some { s with bag := upd s.bag q (g :: s.bag q) }
+      else if g = s.old k ∧ s.fst g = READY ∧ s.ctx g = .saved ∧ ¬ s.pub g ∧ s.mst k = .push then
+        -- maintenance re-queues the fiber that yielded (to_schedule), once
+        some { s with bag := upd s.bag q (g :: s.bag q), mst := upd s.mst k .idle }
       else if s.pub g ∧ (s.fst g = READY ∨ s.fst g = SAVING ∨ s.fst g = WAITING) then
         -- a waker schedules a published fiber: READY just written; or it saw SAVING and left
         -- the state alone (the successor's maintenance may meanwhile have flipped it to
@@ -183,8 +217,12 @@ def step (s : St) : Ev → Option St
       | _ => none
     | .maint =>
       -- first step of maintenance on behalf of the fiber just switched away from
-      if g = s.old k ∧ s.tpc k = .run then
-        some { s with pub := if v = WAITING then upd s.pub g true else s.pub }
+      if g = s.old k ∧ s.tpc k = .run ∧ s.mst k = .read then
+        some { s with pub := if v = WAITING then upd s.pub g true else s.pub,
+                      mst := upd s.mst k (if v = SAVING then .flip else if v = READY then .push
+                                           else if v = DONE then .destroy else .idle) }
+      else if g = s.old k ∧ s.tpc k = .run ∧ s.mst k = .push ∧ v = READY then
+        some s        -- assert(to_schedule->state == READY) in builds with assertions
       else none
     | .yield => if g = s.cur k ∧ s.tpc k = .run then some s else none
     | .switchTo => if g = s.cur k then some s else none
@@ -202,8 +240,8 @@ def step (s : St) : Ev → Option St
           else none
         | _ => none
     | .maint =>
-      if g = s.old k ∧ v = WAITING ∧ s.fst g = SAVING ∧ s.tpc k = .run then
-        some { s with fst := upd s.fst g WAITING }
+      if g = s.old k ∧ v = WAITING ∧ s.fst g = SAVING ∧ s.tpc k = .run ∧ s.mst k = .flip then
+        some { s with fst := upd s.fst g WAITING, mst := upd s.mst k .idle }
       else none
     | .waitSaving =>
       if g = s.cur k ∧ v = SAVING ∧ s.fst g = RUNNING ∧ s.tpc k = .run then
@@ -219,7 +257,8 @@ def step (s : St) : Ev → Option St
       else none
     | .done =>
       -- fiber_mark_completed: marks itself DONE, or wakes the parked joiner
-      if g = s.cur k ∧ v = DONE ∧ s.tpc k = .run then some { s with fst := upd s.fst g DONE }
+      if g = s.cur k ∧ v = DONE ∧ s.fst g = RUNNING ∧ s.tpc k = .run then
+        some { s with fst := upd s.fst g DONE }
       else if v = READY ∧ s.fst g = WAITING ∧ s.pub g ∧ s.tpc k = .run then
         some { s with fst := upd s.fst g READY }
       else none
@@ -231,12 +270,16 @@ def step (s : St) : Ev → Option St
       else decide (s.tpc k = .run ∧ s.maintOf g = k)     -- to the thread's maintenance fiber
     if ok ∧ g ≠ f then
       some { s with ctx := upd (upd s.ctx f .saved) g (.running k), cur := upd s.cur k g,
-                    old := upd s.old k f, tpc := upd s.tpc k .run, pub := upd s.pub g false }
+                    old := upd s.old k f, tpc := upd s.tpc k .run, pub := upd s.pub g false,
+                    mst := upd s.mst k .read }
     else none
   | .destroy k g =>
-    if g = s.old k ∧ s.fst g = DONE ∧ s.tpc k = .run ∧ s.tracked g ∧ ¬ inSomeBag s g NQ ∧ ¬ heldBy s g then
-      some { s with ctx := upd s.ctx g .dead }
+    if g = s.old k ∧ s.fst g = DONE ∧ s.tpc k = .run ∧ s.tracked g ∧ ¬ inSomeBag s g NQ ∧ ¬ heldBy s g
+        ∧ s.mst k = .destroy then
+      some { s with ctx := upd s.ctx g .dead, mst := upd s.mst k .idle }
     else none
+
+def step (s : St) (e : Ev) : Option St := if e.wf then core s e else none
 
 def sys : Sys St Ev := { init := init, step := step }
 
